@@ -144,6 +144,15 @@ pub fn generate(tier: &str, rng: &mut Prng) -> Vec<Case> {
             let msg = rng.bytes(12);
             ops.push(Case::new(format!("interop_export {n} {} {}", hex(&ks), hex(&msg))));
         }
+        // keys with a rare algebraic feature (the NTT slots of f multiply to 1; the top / constant coefficient of h is 0):
+        // signatures and encodings made here go to the reference, and the exported key comes back
+        for kind in ["f_product_one", "h_top_zero", "h_const_zero"] {
+            for ks in crate::seeds::special(n, tier, kind, 1) {
+                let msg = rng.bytes(12);
+                ops.push(Case::new(format!("interop_ours {n} {} {} {}", hex(&ks), hex(&msg), rng.next() >> 1)));
+                ops.push(Case::new(format!("interop_export {n} {} {}", hex(&ks), hex(&msg))));
+            }
+        }
         // signatures whose hashed stream (salt || message) contains a 16-bit word at / next to the rejection threshold 5q
         // before n coefficients are collected: both sides must skip or keep the same words.  The salt is the first 40
         // bytes of the injected generator, so (generator seed, message) pairs are searched with the reference hash.
